@@ -153,7 +153,7 @@ func constByte(pkg *packages.Package, name string) (int64, bool) {
 func runC20(c *core.Ctx) {
 	c.Rule("R1", "accepted alphabet ⊆ documented set and excludes every separator; length limit 150", 3)
 	c.Rule("R2", "ValidTenantID accepts ⇔ all bytes valid ∧ len ≤ max ∧ not '.'/'..'", 2)
-	c.Rule("R3", "resolver entry points return only validated, metadata-trimmed, normalised identifiers", 5)
+	c.Rule("R3", "resolver entry points return only validated, metadata-trimmed, normalised identifiers; every further identifier is compared", 7)
 	c.Rule("R5", "transport: same header/context keys on both sides, values forwarded unchanged", 6)
 	c.Rule("R6", "no default tenant: handlers reachable only after successful extraction; extraction fails when the identifier is absent", 8)
 	tp := c.Prog.Pkg("tenant")
@@ -371,6 +371,8 @@ func c20Resolvers(c *core.Ctx, tp *packages.Package) {
 			})
 			c.Check(okCmp, "R3", "func=TenantID:compare", fn.Pos(), "further identifiers are compared with the first one after TrimMetadata on both sides", 1)
 		}
+		// every further identifier is compared with the first one, and a difference ends the loop abnormally
+		c20EachCompared(c, tp, fn, name, varg)
 	}
 	// multi-value
 	fn := an.FindFunc(tp, "parseTenantIDs")
@@ -634,4 +636,156 @@ func c20Rejects(c *core.Ctx, f *an.Fn, bd *an.Binder, when string) {
 		}}
 	res := t.Run()
 	c.Check(res.OK() && len(okRets) > 0, "R6", "func=user."+f.Name+":reject", f.Pos(), fmt.Sprintf("when %s no successful return is reachable (%d success returns): %s", when, len(okRets), res.Summary()), res.Rows)
+}
+
+// c20EachCompared: the loop over the further identifiers (in the entry point itself or in a same-package
+// helper it calls) compares each of them with the first one; an identifier that differs leaves the
+// loop abnormally on every path (return / break), an equal one continues with the next, whatever else
+// the loop tests — so no identifier is skipped. The abnormal exit must lead to ErrTooManyOrgIDs.
+func c20EachCompared(c *core.Ctx, tp *packages.Package, fn *an.Fn, name, varg string) {
+	key := "func=" + name + ":each-compared"
+	type found struct {
+		in   *an.Fn
+		loop *ast.ForStmt
+		cmp  *ast.BinaryExpr
+	}
+	search := func(f *an.Fn, first func(string) bool) *found {
+		var out *found
+		f.InspectShallow(func(n ast.Node) bool {
+			fs, ok := n.(*ast.ForStmt)
+			if !ok || out != nil {
+				return true
+			}
+			cuts := false
+			ast.Inspect(fs.Body, func(m ast.Node) bool {
+				if call, ok := m.(*ast.CallExpr); ok {
+					if o := an.Callee(f.Info(), call); o != nil && (o.Name() == "stringsCut" || o.Name() == "Cut") {
+						cuts = true
+					}
+				}
+				return true
+			})
+			if !cuts {
+				return true
+			}
+			ast.Inspect(fs.Body, func(m ast.Node) bool {
+				is, ok := m.(*ast.IfStmt)
+				if !ok || out != nil {
+					return true
+				}
+				be, ok := an.Unparen(is.Cond).(*ast.BinaryExpr)
+				if !ok || (be.Op != token.NEQ && be.Op != token.EQL) {
+					return true
+				}
+				isStr := func(e ast.Expr) bool {
+					t := f.Info().TypeOf(e)
+					if t == nil {
+						return false
+					}
+					b, ok := t.Underlying().(*types.Basic)
+					return ok && b.Info()&types.IsString != 0
+				}
+				_, xLit := an.Unparen(be.X).(*ast.BasicLit)
+				_, yLit := an.Unparen(be.Y).(*ast.BasicLit)
+				if isStr(be.X) && isStr(be.Y) && !xLit && !yLit && !first("") {
+					out = &found{f, fs, be}
+				}
+				return true
+			})
+			return true
+		})
+		return out
+	}
+	_ = varg
+	fd := search(fn, func(s string) bool { return s == varg })
+	viaHelper := ""
+	if fd == nil {
+		for _, call := range fn.Calls(false) {
+			if cf := call.Func(); cf != nil && cf.Pkg() == tp.Types {
+				if h := an.FnOf(c.Prog.ByPath, cf); h != nil {
+					if c.Prog.Override != nil {
+						h = an.FindFunc(tp, h.Name)
+					}
+					if h == nil {
+						continue
+					}
+					if r := search(h, func(string) bool { return false }); r != nil {
+						fd = r
+						viaHelper = h.Name
+						// the caller must turn the helper's answer into ErrTooManyOrgIDs
+						okErr := false
+						fn.InspectShallow(func(n ast.Node) bool {
+							if is, ok := n.(*ast.IfStmt); ok && an.InNode(is.Cond, call.Expr) {
+								ast.Inspect(is.Body, func(m ast.Node) bool {
+									if rs, ok := m.(*ast.ReturnStmt); ok && len(rs.Results) > 0 && strings.HasSuffix(fn.Canon(rs.Results[len(rs.Results)-1]), "ErrTooManyOrgIDs") {
+										okErr = true
+									}
+									return true
+								})
+							}
+							return true
+						})
+						if !okErr {
+							c.Viol("R3", key, call.Expr.Pos(), "the helper's answer is not turned into ErrTooManyOrgIDs by the caller")
+							return
+						}
+					}
+				}
+			}
+		}
+	}
+	if fd == nil {
+		c.Undec("R3", key, fn.Pos(), "loop over the further identifiers with a comparison against the first one not found (neither here nor in a helper called from here)")
+		return
+	}
+	f, loop, cmp := fd.in, fd.loop, fd.cmp
+	g := f.Graph()
+	header, body, _ := g.LoopBlocks(loop)
+	// abnormal exits of the loop body
+	var exits []an.Loc
+	errExit := viaHelper != ""
+	ast.Inspect(loop.Body, func(n ast.Node) bool {
+		switch x := n.(type) {
+		case *ast.FuncLit:
+			return false
+		case *ast.ReturnStmt:
+			exits = append(exits, g.Locate(x))
+			if len(x.Results) > 0 && strings.HasSuffix(f.Canon(x.Results[len(x.Results)-1]), "ErrTooManyOrgIDs") {
+				errExit = true
+			}
+		case *ast.BranchStmt:
+			if x.Tok == token.BREAK || x.Tok == token.GOTO {
+				exits = append(exits, g.Locate(x))
+			}
+		}
+		return true
+	})
+	bad := []string{}
+	paths := 0
+	for _, same := range []bool{true, false} {
+		leaf := func(e ast.Expr, _ an.Store) an.Tri {
+			if an.Unparen(e) == ast.Expr(cmp) {
+				return an.FromBool(same == (cmp.Op == token.EQL))
+			}
+			return an.U
+		}
+		ex := g.Exec(an.Loc{B: body, I: 0}, exits, leaf, an.ExecOpts{Header: header, Record: true})
+		paths += ex.Paths
+		for _, tr := range ex.Traces {
+			if same && len(tr) > 0 {
+				bad = append(bad, "an identifier equal to the first one can end the loop")
+			}
+			if !same && len(tr) == 0 {
+				bad = append(bad, "an identifier different from the first one does not end the loop on every path (some path skips the comparison or ignores its result)")
+			}
+		}
+	}
+	if !errExit {
+		bad = append(bad, "no abnormal exit of the loop returns ErrTooManyOrgIDs")
+	}
+	where := ""
+	if viaHelper != "" {
+		where = " (loop in helper " + viaHelper + ")"
+	}
+	c.Check(len(bad) == 0 && len(exits) > 0, "R3", key, loop.Pos(), fmt.Sprintf("for every further identifier%s: it differs from the first ⇔ the loop is left through its error exit, whatever else the loop tests (no identifier is skipped): %d paths %v", where, paths, head(bad, 3)), paths)
 }
